@@ -504,7 +504,7 @@ def ser_mapkey(ctx):
                     wit = interp(facts, b)
                     for c in wit.calls.values():
                         info2 = cinfo(c.cid)
-                        if info2['local'] and info2['name'] == 'serialize':
+                        if info2['local'] and info2['name'] == '~serialize':
                             mb = facts.by_uid.get(info2['uid'])
                             if mb is not None:
                                 mit = interp(facts, mb)
@@ -564,10 +564,13 @@ def ser_with_sym(ctx):
               % ('emits' if s_ok else 'does NOT emit', 'reads' if d_ok else 'does NOT read', '' if coll else ' and does not collect it'))
 
 
-@rule('SER-ENUM-EXT', {
+@rule('SER-ENUM-EXT', dict({
     'C19': 'op enums must use serde\'s externally tagged representation: internally tagged / adjacent / untagged enums are decoded '
            'through serde\'s buffered Content, which turns map keys into strings, so a VClock with integer actors no longer deserialises',
-}, floor=6)
+}, **{p_: 'an op that travels between replicas in serialised form must arrive as the op that was sent: an untagged representation lets one '
+          'variant decode as another (a missing `Option` field reads as None), so replicas apply different ops'
+      for ps_ in TYPE_PROPS.values() for p_ in ps_}), floor=6,
+    inst_filter={p_: (lambda i, p_=p_: p_ in type_props(i) or i in ('floor', 'anchor', 'internal')) for ps_ in TYPE_PROPS.values() for p_ in ps_})
 def ser_enum_ext(ctx):
     """Every enum among the state/op types is serialised variant by variant with serialize_*_variant (externally tagged)."""
     facts = ctx.facts
